@@ -227,7 +227,7 @@ fn parse_into(text: &str, path: &str, include_dir: &str, unit: &mut Unit) -> Res
                     }
                 }
             }
-            "rewrite" | "type" | "dropstmt" | "stmt" | "forloop" => {
+            "rewrite" | "type" | "dropstmt" | "stmt" | "forloop" | "guard" => {
                 let r = mk_rule(&d, &a, &origin)?;
                 match cur.as_mut() {
                     Some(t) => t.rules.push(r),
